@@ -160,7 +160,7 @@ class Heap:
                              sweep=g.sweep, sweep_prev=g.sweep_prev, objs=objs)
         st.g["edges"] = g.edges
         st.mem[("root",)] = ("sym", "rootval")
-        st.mem[("arena",)] = adt("arena::Arena", 0, (ref(("ctx",), ()), ("sym", "root")))
+        st.mem[("arena",)] = gcmodel.arena_value(self.prog)
         st.mem[("selfref",)] = self.m.ctx_ref()
         return st
 
@@ -353,7 +353,7 @@ class Heap:
             # the public entry point: Arena::mutate_root with an opaque callback (which stores the pointer, and in the
             # fault exploration may panic after having stored it - the arena is only borrowed and survives the panic)
             if "arena::Arena::mutate_root" in self.prog.seed_n:
-                st.mem[("arena",)] = adt("arena::Arena", 0, (cx, ("sym", "root")))
+                st.mem[("arena",)] = gcmodel.arena_value(self.prog, cx)
                 ip = self.m.ip
                 old_l = ip.lenient_std
                 ip.lenient_std = True
